@@ -203,6 +203,18 @@ def judge(program, mod, inp, cfg_dir, seen=None):
     # what this case exercises, by the plan (independent of what the implementation does with it)
     kind = "valid" if exp["kind"] == "ok" else "missing-required"
     cover = [f"{p[0]}:{src}" for p, src in srcs.values()] if kind == "valid" else []
+    if kind == "valid":
+        if inp.get("selcfg"):
+            cover.append(
+                "select-by-config:"
+                + ("nested" if len(stages) >= 3 else "first-level")
+                + (":with-sibling-section" if inp.get("sib") is not None else ":alone")
+            )
+        for st in stages:
+            if st.get("mkind"):
+                cover.append(f"method:{st['mkind']}:{'inherited' if program.get('inh') in ('meth', 'all') else 'own'}")
+            if st["callee"] == "K.__init__" and st["sig"]:
+                cover.append(f"init:{'inherited' if program.get('inh') in ('init', 'all') else 'own'}")
 
     if o["kind"] == "timeout":
         return kind, [(f"timeout:{leaf_role}", shown)], cover
@@ -237,6 +249,7 @@ def judge(program, mod, inp, cfg_dir, seen=None):
             ("value-refused-by-type", "invalid "),
             ("value-refused-by-type", "Does not validate against"),
             ("arguments-are-required", "arguments are required"),
+            ("key-not-accepted", "does not accept nested key"),
         ):
             if pat in text:
                 reason = word
@@ -270,7 +283,10 @@ def judge(program, mod, inp, cfg_dir, seen=None):
                     )
                 )
         if owner is not None and gowner != owner:
-            devs.append((f"method-not-on-the-constructed-object:{form}", f"{callee} ran on object of call #{gowner} | {shown}"))
+            what = {"class:K": "classmethod-not-bound-to-the-given-class", "static": "staticmethod-received-an-owner"}.get(
+                owner, "method-not-on-the-constructed-object"
+            )
+            devs.append((f"{what}:{form}", f"{callee} ran on {gowner!r}, expected {owner!r} (int = object of that call) | {shown}"))
     value = o["value"]
     if exp["ret"] == "token":
         if not (len(tokens) == 1 and value is tokens[0] and tokens[0].name == want[-1][0]):
@@ -340,10 +356,15 @@ def space(quick):
                 prog["flip"] = 1
             out.append((f"{form}/{n}{tag}" + ("-flipped" if flip else ""), prog, plan))
 
-    def klass(pairs, plan, namings, nmeths, form="class", max_dev=None, flip=0):
+    def klass(pairs, plan, namings, nmeths, form="class", max_dev=None, flip=0, nest=0):
         for a, b, init, meth in class_programs(pairs, max_dev):
             if form == "mixed":
-                out.append((f"mixed/{a}+{b}", {"form": "mixed", "init": init, "meth": meth}, plan))
+                prog = {"form": "mixed", "init": init, "meth": meth}
+                if nmeths:  # the class inside the list / dict has the second method m2 as well
+                    prog["nmeth"] = 2
+                if nest:  # {"fa": fa, "grp": {"K": K}} instead of [fa, K]
+                    prog["nest"] = 1
+                out.append((f"mixed/{a}+{b}" + ("-two-methods" if nmeths else "") + ("-nested" if nest else ""), prog, plan))
                 continue
             for naming in namings if (a and b) else namings[:1]:
                 for nmeth in nmeths:
@@ -353,21 +374,42 @@ def space(quick):
                     tag = ("-reduced" if max_dev is not None else "") + ("-flipped" if flip else "")
                     out.append((f"class/{a}+{b}{tag}", prog, plan))
 
+    def kinds(pairs, plan, variants, naming="shared"):
+        """Classes whose methods are plain / @classmethod / @staticmethod, defined in the class or inherited."""
+        for a, b, init, meth in class_programs(pairs):
+            for k1, k2, inh in variants:
+                prog = {"form": "class", "init": init, "meth": meth, "naming": naming, "nmeth": 2}
+                prog.update({"mkind": k1, "m2kind": k2, "inh": inh})
+                out.append((f"class/{a}+{b}-method-kinds-and-inheritance", prog, plan))
+
+    K3 = gen.KINDS
+    # both methods of the same kind x each way of inheriting (nothing / the methods / the constructor / everything);
+    # m2 of the next kind with nothing / everything inherited; the plain class (inst, inst, "") is in the class
+    # blocks already
+    kind_variants = [(k, k, inh) for inh in gen.INHERIT for k in K3 if (k, inh) != ("inst", "")]
+    kind_variants += [(k, K3[(i + 1) % 3], inh) for inh in ("", "all") for i, k in enumerate(K3)]
+    # for the parameterless method only the constructor side matters: own and inherited constructor x method kind
+    init_variants = [(k, k, inh) for inh in ("", "init") for k in K3 if (k, inh) != ("inst", "")] + [("inst", "inst", "all")]
+
     if quick:
         flat("func", 1, "full")
         flat("func", 2, "full")
         flat("func", 3, "lean3:first")
-        flat("list", 1, "full")
+        flat("list", 1, "full:sel")
         flat("list", 2, "lean3")
         flat("dataclass", 1, "full")
         flat("dataclass", 2, "lean")
         flat("plainclass", 1, "full")
-        flat("dict", 1, "full")
+        flat("dict", 1, "full:sel")
         flat("dict", 2, "lean3:deep", max_dev=1, tag="-reduced")
-        klass([(0, 0), (0, 1), (1, 0)], "full", ["shared", "distinct"], (2, 1))
+        klass([(0, 0), (0, 1), (1, 0)], "full:sel", ["shared", "distinct"], (2, 1))
         klass([(1, 1)], "lean", ["shared"], (2,))
         klass([(2, 0), (0, 2)], "lean3", ["shared"], (2,), max_dev=1)
         klass([(0, 1), (1, 0)], "lean", None, None, form="mixed")
+        klass([(0, 1), (1, 0)], "lean:sel", None, (2,), form="mixed")
+        klass([(0, 1), (1, 0)], "argv:sel", None, (2,), form="mixed", nest=1)
+        kinds([(0, 1)], "lean", kind_variants)
+        kinds([(1, 0)], "lean", init_variants)
         # the other default / the other value at position 0 (e.g. Optional[int] = 4 given null, bool = False)
         for form in ("func", "list", "dataclass"):
             flat(form, 1, "full", flip=1)
@@ -378,20 +420,25 @@ def space(quick):
         flat("func", 3, "product")
         flat("func", 4, "lean3", max_dev=2, tag="-reduced")
         for form in ("list", "dataclass", "plainclass"):
-            flat(form, 1, "full")
-            flat(form, 2, "full")
+            flat(form, 1, "full:sel" if form == "list" else "full")
+            flat(form, 2, "full:sel" if form == "list" else "full")
         for form in ("list", "dataclass", "plainclass"):
             flat(form, 3, "lean3", max_dev=2, tag="-reduced")
-        flat("dict", 1, "full")
+        flat("dict", 1, "full:sel")
         flat("dict", 2, "lean")
         flat("dict", 3, "lean3:deep", max_dev=2, tag="-reduced")
-        klass([(0, 0), (0, 1), (1, 0)], "full", ["shared", "distinct"], (2, 1))
+        klass([(0, 0), (0, 1), (1, 0)], "full:sel", ["shared", "distinct"], (2, 1))
         klass([(1, 1)], "full", ["shared"], (2,))
         klass([(1, 1)], "product", ["distinct"], (2,))
         klass([(1, 1)], "lean", ["shared", "distinct"], (1,))
         klass([(0, 2), (2, 0)], "product", ["shared"], (2,))
         klass([(1, 2), (2, 1)], "lean3", ["shared"], (2,), max_dev=1)
         klass([(0, 1), (1, 0), (1, 1), (0, 2), (2, 0)], "lean", None, None, form="mixed")
+        klass([(0, 1), (1, 0)], "lean:sel", None, (2,), form="mixed")
+        klass([(0, 1), (1, 0)], "lean:sel", None, (2,), form="mixed", nest=1)
+        kinds([(0, 1)], "full", kind_variants)
+        kinds([(1, 0)], "lean", init_variants)
+        kinds([(1, 1)], "lean", [("cls", "cls", ""), ("cls", "cls", "all"), ("static", "static", "all")])
         for form in ("func", "list", "dataclass", "plainclass", "dict"):
             flat(form, 1, "full", flip=1)
         flat("func", 2, "full", flip=1)
@@ -458,6 +505,15 @@ def explore(ctx):
                 "required one omitted",
                 "lean3": "all on argv, the required ones in --config and nothing else, each required one omitted",
                 "decoy / decoy1": "sibling function or second method m2: all on argv (+ only the required ones)",
+                "argv": "all on argv and nothing else",
+                ":sel": "additionally sub-commands selected through the config: for k = 1 .. number of sub-command "
+                "levels the tokens of the last k levels are left out and those levels are named by explicit "
+                "'subcommand' keys in a top-level --config, alone and next to a complete section for each other leaf "
+                "of the program; per (k, sibling): everything in the config (as_positional=False), token-selected "
+                "levels on argv + the rest in the config, each required parameter omitted; without sibling also "
+                "only-required, as_positional=True and the other values with --config last; for the leaves that are "
+                "not the enumerated one (so that a sub-command that is not the first of its level is selected too) "
+                "only 'everything in the config' per (k, sibling)",
                 ":deep": "dict form: only the leaf at depth 3",
                 ":first": "lean3 with only the first required parameter omitted (instead of each in turn)",
             },
@@ -490,6 +546,15 @@ def explore(ctx):
         not lacking,
         "every type hint is bound through every source (argv positional / argv option / config / default; Optional "
         "without default -> None)" + (f"; missing: {lacking}" if lacking else ""),
+    )
+    need2 = {f"method:{k}:{w}" for k in gen.KINDS for w in ("own", "inherited")} | {"init:own", "init:inherited"}
+    need2 |= {f"select-by-config:{d}:{w}" for d in ("first-level", "nested") for w in ("alone", "with-sibling-section")}
+    lacking2 = sorted(need2 - cover)
+    ctx.require(
+        not lacking2,
+        "plain methods, classmethods and staticmethods, defined in the class and inherited, own and inherited "
+        "constructors are bound; sub-commands at the first and at nested levels are selected through the config, alone "
+        "and next to sections of siblings" + (f"; missing: {lacking2}" if lacking2 else ""),
     )
     forms = {p["form"] for _, p, _ in items}
     ctx.require(forms == {"func", "list", "dict", "class", "mixed", "dataclass", "plainclass"}, "every component form ran")
